@@ -26,7 +26,8 @@ RULE = ('exhaustive: every operation history up to the depth bound over the '
         'length 200-3000 over universes of 4-40 elements with the oracle after '
         'every operation. A history is non-trivial when it passes through at '
         'least two different contents; enumerated histories are distinct by '
-        'construction, random ones by hash of the operation sequence.')
+        'construction, random ones by hash of the operation sequence.'
+        ' Binary operators also with the left operand of the other ordered-set class or a plain list / set / tuple (reflected operators); membership probed with None and other never-members.')
 ASSUMPTIONS = ['the list-without-duplicates model is the specification',
                'equality is exercised against ordered collections only '
                '(lists, tuples, OrderedSet, QuerySet) without duplicates']
